@@ -889,6 +889,53 @@ fn drive_arte(sc: &E2Scenario, rep: &mut RunReport) {
         rep.probe("generate_ok");
         artifacts::check_artifacts(sc, &tree0, &after, &p.listed, rep);
     }
+    // A history: some GraphQL inputs are edited in a way that moves every position but leaves the
+    // generated declarations as they were (comment lines on top), then `generate` runs again over
+    // the outputs of the first run.  The maps must describe the edited inputs (C06), and the
+    // tree must equal what a run on a clean copy of the edited project produces (C17).
+    let mut re = Rng::new(sc.faults.sample_seed ^ 0xed17);
+    if re.chance(1, 2) {
+        let mut edited = tree0.clone();
+        let mut only: Tree = Tree::new();
+        let inputs: Vec<String> = sc.op_inputs().into_iter().chain(if sc.project.introspection() { vec![] } else { sc.schema_inputs() }).collect();
+        for f in &inputs {
+            if re.chance(1, 2) {
+                let n = 1 + re.below(3);
+                let mut b = "# edited: a comment line that moves everything below it\n".repeat(n).into_bytes();
+                b.extend_from_slice(&tree0[f]);
+                edited.insert(f.clone(), b.clone());
+                only.insert(f.clone(), b);
+            }
+        }
+        if !only.is_empty() {
+            sandbox::write_tree(&only);
+            rep.fault("input_edit_between_runs");
+            let (r2, after2) = rn.on_tree(&["generate"], "json", sc.hash_seeds[0], Some(sc.readdir_seeds[0]), &[]);
+            rep.events += 1;
+            if r2.trapped() {
+                rep.violate(&["C18", "C08"], &format!("trap@{}", r2.panic_site()), format!("re-generate after an edit: exit {} {}", r2.exit, tail(&r2.stderr_str())));
+            } else if r2.exit == 0 {
+                if let Ok(p2) = parse_output("json", &r2) {
+                    rep.probe("regenerated_after_edit");
+                    artifacts::check_artifacts(sc, &edited, &after2, &p2.listed, rep);
+                    let (r3, after3) = {
+                        sandbox::reset_tree(&edited);
+                        rn.on_tree(&["generate"], "json", sc.hash_seeds[0], Some(sc.readdir_seeds[0]), &[])
+                    };
+                    rep.events += 1;
+                    if r3.exit != r2.exit || r3.stdout != r2.stdout || after3 != after2 {
+                        rep.violate(
+                            &["C17"],
+                            "C17.2-stale-outputs-shine-through",
+                            format!("generate after an edit of the inputs, over the outputs of the earlier run, differs from generate on a clean copy of the edited project: {:?}", changed_paths(&after3, &after2)),
+                        );
+                    }
+                }
+            } else {
+                rep.violate(&["C17"], "C17.2-rerun-output-differs", format!("generate succeeded, comment lines were put on top of some inputs, and generate now exits {}: {}", r2.exit, tail(&r2.stdout_str())));
+            }
+        }
+    }
 }
 
 /// value exports of a declaration file or JS module: (exported const names, default -> const name,
@@ -956,7 +1003,47 @@ fn doc_head(json_text: &str) -> Option<(String, Option<String>)> {
 fn drive_c14(sc: &E2Scenario, rep: &mut RunReport) {
     use crate::e1;
     let mut rn = Runner::new(sc);
-    let (r, after) = rn.fresh(&["generate"], "json", sc.hash_seeds[0], Some(sc.readdir_seeds[0]), &[]);
+    let p = &sc.project;
+    // half of the runs: the project directory has been generated before under an earlier version
+    // of the configuration (other naming / export options, sometimes another mode); only the config
+    // file is edited afterwards, and `generate` runs again over the outputs of that earlier run
+    let mut rh = Rng::new(sc.faults.sample_seed ^ 0xc14c14);
+    let (r, after) = if rh.chance(1, 2) {
+        let mut g = p.config.generate.clone();
+        if let Some(o) = g.as_object_mut() {
+            let dflt = p.config.generate.pointer("/export/defaultExportForOperation").and_then(|v| v.as_bool()).unwrap_or(true);
+            let cap = p.config.generate.pointer("/name/capitalizeOperationNames").and_then(|v| v.as_bool()).unwrap_or(true);
+            o.insert("name".into(), json!({"capitalizeOperationNames": !cap, "queryVariableSuffix": "Zq", "mutationVariableSuffix": "Zm", "subscriptionVariableSuffix": "Zs", "fragmentVariableSuffix": "Zf"}));
+            o.insert("export".into(), json!({"defaultExportForOperation": !dflt, "operationResultType": true, "variablesType": true}));
+            if rh.chance(1, 3) {
+                let other = if p.mode() == "standalone-ts-4.0" { "with-loader-ts-5.0" } else { "standalone-ts-4.0" };
+                o.insert("mode".into(), json!(other));
+            }
+        }
+        let earlier = p.config_text_of(&p.config_value_with(&g));
+        let mut t = rn.tree0.clone();
+        t.insert(p.config_path(), earlier.into_bytes());
+        // ... and some operation files had one more operation at their end back then
+        let mut restore: Tree = Tree::new();
+        for (k, f) in sc.op_inputs().iter().enumerate() {
+            if rh.chance(1, 2) {
+                let mut b = t[f].clone();
+                b.extend_from_slice(format!("\nquery ZzEarlierOperation{k} {{\n  __typename\n}}\n").as_bytes());
+                restore.insert(f.clone(), t[f].clone());
+                t.insert(f.clone(), b);
+            }
+        }
+        sandbox::reset_tree(&t);
+        let (r0, _) = rn.on_tree(&["generate"], "json", sc.hash_seeds[0], Some(sc.readdir_seeds[0]), &[]);
+        rep.probe(if r0.exit == 0 { "generated_before_under_other_config" } else { "earlier_config_run_failed" });
+        rep.fault("config_edit_between_runs");
+        let mut only_cfg: Tree = [(p.config_path(), p.config_text().into_bytes())].into_iter().collect();
+        only_cfg.extend(restore);
+        sandbox::write_tree(&only_cfg);
+        rn.on_tree(&["generate"], "json", sc.hash_seeds[0], Some(sc.readdir_seeds[0]), &[])
+    } else {
+        rn.fresh(&["generate"], "json", sc.hash_seeds[0], Some(sc.readdir_seeds[0]), &[])
+    };
     rep.events += rn.runs;
     if r.trapped() {
         rep.violate(&["C18", "C08"], &format!("trap@{}", r.panic_site()), format!("exit {} {}", r.exit, tail(&r.stderr_str())));
@@ -966,7 +1053,6 @@ fn drive_c14(sc: &E2Scenario, rep: &mut RunReport) {
         rep.probe("generate_failed");
         return;
     }
-    let p = &sc.project;
     let texts: BTreeMap<String, String> = sc.tree.iter().cloned().collect();
     let files: Vec<e1::HostFile> = (0..p.ops.len())
         .map(|i| e1::HostFile { path: p.op_abs(i), versions: vec![e1::FileVersion { text: texts[&p.op_abs(i)].clone(), imports: Some(p.ops[i].imports.iter().map(|x| x.spelling.clone()).collect()) }], exists: true })
